@@ -58,7 +58,7 @@ U.asyncio = _AsyncioRecorder()
 CAP = 40    # upper bound on ticks spent reaching quiescence
 
 (A_BOUND, A_BOUND_AFTER, A_BOUND1, A_CONTRACT, A_PENDING, A_UNCANCELLED, A_PERMITS, A_PERMITS1,
- A_RETURNS) = (1 << i for i in range(9))
+ A_RETURNS, A_TASKERR) = (1 << i for i in range(10))
 ASPECTS = {
     A_BOUND: 'parallelism-bound-exceeded-during-call',  # more than P workers inside their body while the call runs
     A_BOUND_AFTER: 'parallelism-bound-exceeded-after-return',  # ... among workers that go on after the call raised
@@ -69,10 +69,11 @@ ASPECTS = {
     A_PERMITS: 'semaphore-permits-not-restored',        # semaphore value after everything finished != value before
     A_PERMITS1: 'semaphore-permits-off-by-more-than-one',
     A_RETURNS: 'gather-does-not-return',                # all futures resolved, loop quiescent, call still pending
+    A_TASKERR: 'background-task-ended-with-internal-error',  # a task returned by OnlineBoundedGather2.call() carries an exception
 }
 
 
-NASPECT = 9
+NASPECT = 10
 TAGS = ('', 'caller cancelled', 'caller cancelled after a worker error')
 NEVER = 99
 
@@ -411,6 +412,348 @@ def reach(mode, holder, P, n, perm, outs, drains, vals, cpoint, cdrain, unwind):
     if cpoint == NEVER:
         return len(info['failed']) > 0 and len(info['raise_order']) > 0
     return info['scenario'] != 'no outer cancellation' and True in info['cancelled']
+
+
+# ---- family O: OnlineBoundedGather2 driven by a symbolic program ------------------------------------------------------
+# One schedule = k symbolic step codes.  Worker 0 is always submitted first (fixed prefix); afterwards each step is
+#   0 CALL        the body submits the next worker with pool.call
+#   1 WAIT        the body awaits pool.wait([first submitted task that is not done])
+#   2 LEAVE_OK    the body ends, the `async with` block is left normally
+#   3 LEAVE_EXC   the body raises UserError inside the block
+#   4+3i+o        the director resolves worker i's future: o = 0 value, 1 exception, 2 cancelled (own CancelledError)
+#   4+3n+i        the director calls Task.cancel() on the task pool.call returned for worker i
+#   4+4n          END: nothing more (all later steps must be END too)
+# Body steps are queued for the body coroutine, which holds one permit and performs them in order whenever it is not
+# blocked; director steps take effect at once.  After the k steps the director makes the body leave normally (if it
+# has not left), lets everything settle, then resolves every remaining future with its value, one by one.
+class UserError(Exception):
+    pass
+
+
+def program_ok(n, steps, omax, allow_cancel):
+    """abstract validity + canonical form, decided before anything runs (invalid codes cost no asyncio run)"""
+    nsub, left, ended = 1, False, False
+    resolved = [False] * n
+    END = 4 + 4 * n
+    for a in steps:
+        if a == END:
+            ended = True
+            continue
+        if ended:
+            return False
+        if a == 0:
+            if left or nsub >= n:
+                return False
+            nsub += 1
+        elif a == 1:
+            if left:
+                return False
+            busy = False
+            for i in range(nsub):
+                if not resolved[i]:
+                    busy = True
+            if not busy:
+                return False
+        elif a == 2 or a == 3:
+            if left:
+                return False
+            left = True
+        else:
+            hit = False
+            for i in range(n):
+                for o in range(3):
+                    if a == 4 + 3 * i + o:
+                        if i >= nsub or resolved[i] or o > omax:
+                            return False
+                        resolved[i] = True
+                        hit = True
+                if a == 4 + 3 * n + i:
+                    if not allow_cancel or i >= nsub or resolved[i]:
+                        return False
+                    resolved[i] = True
+                    hit = True
+            if not hit:
+                return False
+    return True
+
+
+async def _director_online(P, n, steps, drains, vals, unwind):
+    loop = asyncio.get_running_loop()
+    st = St()
+    st.running = 0
+    st.maxr = 0
+    st.maxr_after = 0
+    st.returned = False
+    st.inbody = [False] * n
+    st.after = []
+    st.started = [False] * n
+    st.cancelled = [False] * n
+    st.selfc = [False] * n
+    st.own_cancel = [False] * n
+    st.finished = [False] * n
+    st.exc_order = []        # exceptions in the order they reached the pool: worker Booms, the body's own exception
+    st.pending_at_return = None
+    st.body_at_return = 0
+    st.call_after_completion = False
+    st.user_cancelled = [False] * n
+    futs = [loop.create_future() for _ in range(n)]
+    excs = [Boom(i) for i in range(n)]
+    uerr = UserError()
+    sema = asyncio.Semaphore(P)
+    tasks = []               # tasks returned by pool.call, index = worker
+    cmds = []
+    st.gate = None
+    st.left = False
+
+    def mk(i):
+        async def w():
+            st.running += 1
+            st.inbody[i] = True
+            if st.returned:
+                st.after.append(i)
+                if st.running > st.maxr_after:
+                    st.maxr_after = st.running
+            elif st.running > st.maxr:
+                st.maxr = st.running
+            st.started[i] = True
+            try:
+                r = await futs[i]
+                st.finished[i] = True
+                return r
+            except asyncio.CancelledError:
+                st.cancelled[i] = True
+                own = st.selfc[i] and futs[i].cancelled() and not asyncio.current_task().cancelling()
+                for _ in range(unwind):
+                    await asyncio.sleep(0)
+                if own:
+                    st.own_cancel[i] = True
+                raise
+            except Exception as e:
+                st.exc_order.append(e)
+                raise
+            finally:
+                st.running -= 1
+                st.inbody[i] = False
+        return w
+
+    def snapshot():
+        st.returned = True
+        st.body_at_return = st.running
+        for i in range(n):
+            if st.inbody[i]:
+                st.after.append(i)
+        st.pending_at_return = 0
+        for t in CREATED:
+            if not t.done():
+                st.pending_at_return += 1
+
+    def submit(pool):
+        i = len(tasks)
+        for j in range(i):
+            if tasks[j].done():
+                st.call_after_completion = True
+        tasks.append(pool.call(mk(i)))
+
+    async def body():
+        await sema.acquire()
+        try:
+            try:
+                async with U.OnlineBoundedGather2(sema) as pool:
+                    try:
+                        submit(pool)
+                        while True:
+                            if not cmds:
+                                st.gate = loop.create_future()
+                                await st.gate
+                                continue
+                            c = cmds.pop(0)
+                            if c == 0:
+                                if len(tasks) < n:
+                                    submit(pool)      # raises PoolShutdownError after a failure, as documented
+                            elif c == 1:
+                                first = None
+                                for t in tasks:
+                                    if first is None and not t.done():
+                                        first = t
+                                if first is not None:
+                                    await pool.wait([first])
+                            elif c == 2:
+                                break
+                            else:
+                                raise uerr
+                    except Exception as e:
+                        st.exc_order.append(e)    # the exception enters the context manager exit now
+                        raise
+                    finally:
+                        st.left = True
+                return 'left'
+            finally:
+                snapshot()
+        finally:
+            sema.release()
+
+    def tell(c):
+        cmds.append(c)
+        if st.gate is not None and not st.gate.done():
+            st.gate.set_result(None)
+
+    async def drain(d):
+        if d == 1:
+            await _quiesce()
+        elif d >= 2:
+            await _ticks(1)
+
+    G = asyncio.ensure_future(body())
+    await _quiesce()
+    END = 4 + 4 * n
+    told_leave = False
+    for j in range(len(steps)):
+        a = steps[j]
+        if a == END:
+            break
+        if a == 0 or a == 1:
+            tell(a)
+        elif a == 2 or a == 3:
+            tell(a)
+            told_leave = True
+        else:
+            for i in range(n):
+                for o in range(3):
+                    if a == 4 + 3 * i + o and not futs[i].done():
+                        if o == 0:
+                            futs[i].set_result(vals[i])
+                        elif o == 1:
+                            futs[i].set_exception(excs[i])
+                        else:
+                            st.selfc[i] = True
+                            futs[i].cancel()
+                if a == 4 + 3 * n + i and i < len(tasks) and not tasks[i].done():
+                    st.user_cancelled[i] = True
+                    tasks[i].cancel()
+        await drain(drains[j])
+    if not told_leave:
+        tell(2)
+    await _quiesce()
+    for i in range(n):
+        if not futs[i].done():
+            futs[i].set_result(vals[i])
+            await _quiesce()
+    await _quiesce()
+
+    # ---- oracle -----------------------------------------------------------------------------------
+    mask = 0
+    if st.maxr > P:
+        mask |= A_BOUND
+    if st.maxr_after > P:
+        mask |= A_BOUND_AFTER
+    if st.maxr > P + 1 or st.maxr_after > P + 1:
+        mask |= A_BOUND1
+    info = {'scenario': 'online program', 'submitted': len(tasks), 'max_running': st.maxr,
+            'call_after_completion': st.call_after_completion}
+    if not G.done():
+        mask |= A_RETURNS
+        G.cancel()
+        await _quiesce()
+        for t in CREATED:
+            if not t.done():
+                t.cancel()
+        await _quiesce()
+        info['exit'] = 'never returned'
+        return mask, st, info
+    gcanc = G.cancelled()
+    gexc = None if gcanc else G.exception()
+    # the exit raises the first exception that reached the pool (a worker's, or the body's own); none -> normal exit
+    if st.exc_order:
+        ok = gexc is st.exc_order[0]
+    else:
+        ok = gexc is None and not gcanc
+    # a task that completed carries the worker's value (None when it ended by CancelledError, which the pool counts as
+    # completion)
+    for i in range(len(tasks)):
+        t = tasks[i]
+        if t.done() and not t.cancelled() and t.exception() is None:
+            if st.finished[i]:
+                ok = ok and t.result() == vals[i]
+            else:
+                ok = ok and t.result() is None
+    if not ok:
+        mask |= A_CONTRACT
+    # no task returned by call() ever carries an exception: run_and_cleanup absorbs the worker's (the pool re-raises it
+    # at exit); anything else is an internal error of the pool
+    for t in tasks:
+        if t.done() and not t.cancelled() and t.exception() is not None:
+            mask |= A_TASKERR
+    # exit: "waits for all background tasks to complete"
+    if st.pending_at_return != 0:
+        mask |= A_PENDING
+    for i in st.after:
+        if not st.cancelled[i]:
+            mask |= A_UNCANCELLED
+    pend_now = 0
+    for t in CREATED:
+        if not t.done():
+            pend_now += 1
+            t.cancel()
+    if pend_now:
+        mask |= A_RETURNS
+        await _quiesce()
+    if sema._value != P:
+        mask |= A_PERMITS
+    if not (P - 1 <= sema._value <= P + 1):
+        mask |= A_PERMITS1
+    info.update({'exit': 'CancelledError' if gcanc else (type(gexc).__name__ + str(getattr(gexc, 'i', '')) if gexc else 'normal'),
+                 'first_exception': (type(st.exc_order[0]).__name__ + str(getattr(st.exc_order[0], 'i', ''))) if st.exc_order else None,
+                 'pending_at_return': st.pending_at_return, 'bodies_active_at_return': st.body_at_return,
+                 'sema_value_after': sema._value, 'finished': list(st.finished), 'cancelled': list(st.cancelled),
+                 'started': list(st.started),
+                 'task_states': ['cancelled' if t.cancelled() else ('error ' + repr(t.exception()) if t.exception() else 'done')
+                                 for t in tasks]})
+    return mask, st, info
+
+
+def run_program(P, n, steps, drains, vals, unwind=0):
+    del CREATED[:]
+    del SEMAS[:]
+    loop = DetLoop()
+    try:
+        mask, st, info = loop.run_until_complete(_director_online(P, n, steps, drains, vals, unwind))
+    finally:
+        loop.close()
+    return mask, info
+
+
+def program_violated(P, n, steps, drains, vals, unwind, omax, allow_cancel, excused):
+    if not program_ok(n, steps, omax, allow_cancel):
+        return 0
+    return run_program(P, n, steps, drains, vals, unwind)[0] & ~excused
+
+
+def program_reach(P, n, steps, drains, vals, unwind, omax, allow_cancel):
+    """twin helper: a valid program in which pool.call happens after an earlier task has completed, run to the end"""
+    if not program_ok(n, steps, omax, allow_cancel):
+        return False
+    mask, info = run_program(P, n, steps, drains, vals, unwind)
+    return info.get('exit') != 'never returned' and info['call_after_completion']
+
+
+def describe_program(n, steps):
+    out = ['call(w0)']
+    for a in steps:
+        if a == 4 + 4 * n:
+            break
+        if a == 0:
+            out.append('call(next)')
+        elif a == 1:
+            out.append('wait(first unfinished)')
+        elif a == 2:
+            out.append('leave')
+        elif a == 3:
+            out.append('raise UserError in the block')
+        elif a >= 4 + 3 * n:
+            out.append(f'cancel task w{a - 4 - 3 * n}')
+        else:
+            out.append(f'resolve w{(a - 4) // 3} with ' + ('value', 'exception', 'CancelledError')[(a - 4) % 3])
+    return out
 
 
 def names(mask):
